@@ -110,7 +110,7 @@ func (c *ExprCtx) DrawPath(t *rapid.T) pathInfo {
 	if c.NoNested {
 		return pi
 	}
-	for d := 0; d < 3; d++ {
+	for d := 0; d < 4; d++ {
 		if !pi.Found {
 			break
 		}
